@@ -192,6 +192,15 @@ func runSignal(rc *kernel.RunCtx, k *kernel.Kernel) {
 	}
 	h.Add(a...)
 	h.Add(b...)
+	// The caller may reuse the slices it passed to the variadic Add: they are
+	// overwritten with a service that must never be shut down.
+	poison := &svc{k: k, idx: -1, calls: &calls, timeout: timeout}
+	for i := range a {
+		a[i] = poison
+	}
+	for i := range b {
+		b[i] = poison
+	}
 	k.Logf("signal: services=", kernel.Itoa(nSvc), " script=", kernel.Itoa(len(script)), " precancelled=", btoa(preCancelled))
 
 	// Scheduler-side state.
@@ -662,9 +671,24 @@ func runRefresh(rc *kernel.RunCtx, k *kernel.Kernel) {
 	startBase, cancelStart := context.WithCancel(context.Background())
 	defer cancelStart()
 	s.startCtx = context.WithValue(startBase, ctxKey{}, &marker{id: -1})
-	s.shutdownCtx = context.WithValue(context.Background(), ctxKey{}, &marker{id: -2})
+	shutBase, cancelShut := context.WithCancel(context.Background())
+	defer cancelShut()
+	if tp.Bool(1, 5) {
+		// Shutdown is called with a context that is already done.
+		cancelShut()
+		rc.Stats.Fault("shutdown-context-already-done")
+	}
+	s.shutdownCtx = context.WithValue(shutBase, ctxKey{}, &marker{id: -2})
 	for i := 0; i < 16; i++ {
-		s.errPool = append(s.errPool, fmt.Errorf("refresh error #%d", i))
+		switch i % 4 {
+		case 1:
+			// Errors that look like cancellations are errors all the same.
+			s.errPool = append(s.errPool, fmt.Errorf("refresh error #%d: %w", i, context.Canceled))
+		case 3:
+			s.errPool = append(s.errPool, fmt.Errorf("refresh error #%d: %w", i, context.DeadlineExceeded))
+		default:
+			s.errPool = append(s.errPool, fmt.Errorf("refresh error #%d", i))
+		}
 	}
 	maxTicks := tp.Range(0, 6)
 	shutdownAfter := tp.Choose(maxTicks + 1)
